@@ -5,6 +5,7 @@ Non-vacuity of `C04Model.node_law`: all its hypotheses hold for
 and an unbalanced three-level tree; the conclusion is then read off FROM the theorem for an inner node.
 -/
 import Tsv.Proofs.C04Model
+import Tsv.Proofs.C04ModelW
 import Mathlib.Analysis.Real.Sqrt
 import Mathlib.Data.Finsupp.Basic
 import Mathlib.Algebra.BigOperators.Finsupp.Basic
@@ -127,5 +128,18 @@ theorem instance_independent :
     (by simpa [tree, Model.BM.Tree.s, Model.BM.Tree.e] using hl) hf (ψU (1 / 3)) ψW (le_refl (1 / 3 : ℝ)) f1 f2
     (by simp only [tree, C03Model.sumW, valueAt, Model.BM.Tree.get?]; rfl)
     (by simp only [tree, C03Model.sumW, valueAt, Model.BM.Tree.get?]; rfl)
+
+/-- the same tree in `'none'` mode (increments only): the query `[0, 1/2]` has an increment of variance `1/2` - from `query_var_W`. -/
+theorem instance_query_W :
+    ∃ X, C03Model.sumW (C04ModelW.vecOpsW Real.sqrt nz) (φV (K := ℝ)) (Real.sqrt 1 • xi false, (0 : RV)) tree []
+        [[false], [true, false]] = some X ∧ cov.ip X X = 1 / 2 - 0 := by
+  obtain ⟨hl, hf⟩ := C04ModelW.root_law_W (T := 1) Real.sqrt cov nz sqrt_ok (xi0 := xi false) (by norm_num)
+    (by show dot _ _ = 1; unfold xi; rw [dot_single]; simp)
+    (fun q b => by show dot _ _ = 0; unfold xi nz; rw [dot_single]; simp) 0 1 (by norm_num) (0 : RV)
+  have hfind : find tree 0 (1 / 2) = some [[false], [true, false]] := by
+    simp only [tree, find]
+    norm_num
+  exact C04ModelW.query_var_W (c := cfg) Real.sqrt cov nz sqrt_ok noiseON tree _ [] 0 (1 / 2) tree_wf
+    (by simpa [tree, Model.BM.Tree.s, Model.BM.Tree.e] using hl) hf hfind
 
 end C04ModelEx
